@@ -45,6 +45,6 @@ func DecodeTKey(tk storage.TKey) (supervoxel uint64, ext string, err error) {
 	if fnameBytes, err = tk.ClassBytes(keyStandard); err != nil {
 		return
 	}
-	_, err = fmt.Sscanf(string(fnameBytes), "%s.%d", &supervoxel, &ext)
+	_, err = fmt.Sscanf(string(fnameBytes), "%d.%s", &supervoxel, &ext)
 	return
 }
